@@ -390,6 +390,7 @@ def report_lsp_shift(ctx, shift):
             cands.append((rank, ws, it, ed))
     cands.sort(key=lambda c: c[0])
     seen = set()
+    reported = 0      # known findings (suppressed by their signature) do not use up the places
     for rank, ws, it, ed in cands:
         d = it.get('diag') or {}
         sig = {'kind': 'lsp-shift-' + it['kind'], 'key': d.get('code') or it.get('err', '')[:80]}
@@ -397,7 +398,7 @@ def report_lsp_shift(ctx, shift):
             sig['key'] += ' (%s)' % ed['kind']
         if json.dumps(sig) in seen:
             continue
-        if len(seen) >= LSP_MAX_REPORTED:
+        if reported >= LSP_MAX_REPORTED:
             break
         seen.add(json.dumps(sig))
         what = {
@@ -412,7 +413,7 @@ def report_lsp_shift(ctx, shift):
                'mid_ks': [ed['k']] if ed['kind'] == 'mid' else [], 'mid_cross': True, 'tail_ks': [ed['k']] if ed['kind'] == 'tail' else []}
         if it.get('history'):
             rws['program'] = it['history']      # the issue needs the earlier edits of the session
-        vlib.violation(ctx, {'kind': 'lsp-shift', 'lsp_workspace': rws,
+        reported += 1 if vlib.violation(ctx, {'kind': 'lsp-shift', 'lsp_workspace': rws,
                              'issue': it['kind'], 'file': it['file'], 'k': it['k'], 'edit': ed, 'diagnostic': d, 'minimised': it.get('minimised', False),
                              'needs_session_history': bool(it.get('history')), 'n_issues_in_this_run': len(cands),
                              'before_edit': it.get('before'), 'after_edit': it.get('after'),
@@ -421,7 +422,7 @@ def report_lsp_shift(ctx, shift):
                                      'move by k lines, the others stay'
                                      % (it['file'], it.get('edit_text') or '%d blank lines at the top' % it['k'],
                                         ' (after %d earlier layout-only edits of the session)' % (len(it['history']) - 1) if it.get('history') else '', what)},
-                       signature=sig)
+                                       signature=sig) else 0
 
 
 def run(ctx):
